@@ -148,6 +148,8 @@ def gen_cases(tier, rng):
         fmt = C11.FORMATS[k % 5]
         atom = "AN"[(k // 5) % 2]
         cases.append((C11.random_case(fmt, atom, rng, nops=rng.randint(4, 30)), "random"))
+    # family api2 (engine tendril2: the rest of the public API, one call sequence per case inside one ledger window)
+    cases += C11.api2_cases(tier, rng)
     return cases
 
 
@@ -158,6 +160,8 @@ def model_line(line):
 def compare(line, impl, model):
     # the multi-thread family has no model run (the Lean theorem about interleavings is abstract);
     # it is judged by the oracle only
+    if line.startswith("tendril2\t"):
+        return C11.compare(line, impl, model)
     if line.split("\t")[2] == "T":
         return True
     if any(h in line for h in (" 2415919104", " 4294967295", " 4294967290", " 2147483649")):
@@ -225,6 +229,9 @@ def ledger_oracle(line, out):
 
 
 def oracle(line, out):
+    if line.startswith("tendril2\t"):
+        # values are C11's subject; here the ledger balance of the case (`@ledger=` suffix) and crashes
+        return C11.api2_ledger_oracle(line, out)
     if out is None or out.startswith("PANIC") or out.startswith("ABORT"):
         return "implementation crashed: %s" % out
     if line.split("\t")[2] == "T":
@@ -245,10 +252,14 @@ def oracle(line, out):
 def nontrivial(line, out):
     if out is None:
         return False
+    if line.startswith("tendril2\t"):
+        return C11.nontrivial(line, out)
     return out.startswith("thr|") or "|A" in out
 
 
 def neighbourhood(line):
+    if line.startswith("tendril2\t"):
+        return []
     if line.split("\t")[2] == "T":
         return []
     return C11.neighbourhood(line)
